@@ -1334,13 +1334,18 @@ var bases = []baseDef{
 }
 
 // warm brings a fresh chain into state S1 (pubkeys stored; seq A=2, B=1, M=1).
-func warm(h *hist) {
+func warm(h *hist) bool {
 	for i, rc := range []*recipe{newRecipe(send(A.Addr, C.Addr, 1)), newRecipe(send(A.Addr, C.Addr, 1), send(B.Addr, C.Addr, 1)), newRecipe(send(MAddr, C.Addr, 1))} {
-		if !h.deliver(rc.build(h.m), fmt.Sprintf("warm-up-%d", i)) || h.dirty {
+		changed := h.deliver(rc.build(h.m), fmt.Sprintf("warm-up-%d", i))
+		if h.dirty {
+			return false // a violation was reported by the warm-up tx itself
+		}
+		if !changed {
 			r.HarnessError("warm-up tx %d not accepted", i)
 		}
 	}
 	h.nextBlock()
+	return !h.dirty
 }
 
 type p1task struct {
@@ -1351,13 +1356,13 @@ type p1task struct {
 
 func (t p1task) run() {
 	var h *hist
-	fresh := func() {
+	fresh := func() bool {
 		h = newHist()
-		if t.state == "S1" {
-			warm(h)
-		}
+		return t.state != "S1" || warm(h)
 	}
-	fresh()
+	if !fresh() {
+		return
+	}
 	for _, mu := range t.muts {
 		nslots := 1
 		if mu.perSlot {
@@ -1378,7 +1383,9 @@ func (t p1task) run() {
 				// S0 means "no pubkey stored yet": an accepted tx ends that; S1 chains simply carry on (every tx is
 				// signed against the model's current numbers/sequences)
 				h.finish(label)
-				fresh()
+				if !fresh() {
+					return
+				}
 			}
 		}
 	}
